@@ -26,7 +26,7 @@ BOUNDS = ("tree catalogue (spec/catalogue.py), each tree with 2 (quick) / 3 (tho
           "others pinned at exact rational base points (2 quick / 4 thorough); Sinusoid: either time = 0 with symbolic rate, or rate = 2 with "
           "symbolic time (sin/cos of the compound argument is one shared term); hinge-inertia inverses assumed to exist; lockByDefault is not "
           "applied to CantileverFreeBeam (its default q is uninitialised memory, see report)")
-NOT_COVERED = ("combination with constraints (multipliers via LAPACK, C08); several mobilizers prescribed at once (covered for acceleration-level "
+NOT_COVERED = ("thorough tier: the 5-body trees get 2 base points and 2 choices of free coordinates only; combination with constraints (multipliers via LAPACK, C08); several mobilizers prescribed at once (covered for acceleration-level "
                "Motions by C14/C15 harnesses only); Motion::Linear/Polynomial; position-level prescription of quaternion mobilizers is checked at "
                "the q/qdot/qdotdot level only; general symbolic rate*time; float; rounding; trees beyond the catalogue")
 
@@ -55,7 +55,7 @@ def instances(tier, seed):
             out.append(dict(name="%s|%s@%d" % (n, sc, k), args=args, sc=sc))
             if j == 0:
                 out.append(dict(name="%s|%s@%d|composed" % (n, sc, k), args=args[:4] + ["1", str(tm)], sc=sc, composed=True))
-    return tier_caps(out, tier)
+    return tier_caps(out, tier, big_base_points=2)
 
 
 ALWAYS = ("u", "f_", "a_", "rate", "amp", "pqd", "pu", "pa", "lu", "la")
@@ -68,7 +68,7 @@ def free_sets(inst, tr, tier, rng):
         return [lin]
     if tier == "quick":
         return fs[:1] + ([lin] if lin not in fs[:1] else [])
-    return cap_sets(fs, tier, 4)
+    return cap_sets(fs, tier, 4, inst=inst, big_n=2)
 
 
 def obligations(enc, inst, tr):
